@@ -86,12 +86,16 @@ def _run_generated(args):
             prog["steps"].append(strip(st))
             try:
                 R.step(i, st)
+            except ProgramTimeout:
+                raise
             except Exception as ex:
                 tb = traceback.format_exc(limit=4)
                 R.findings.append(Finding("HARNESS", f"{type(ex).__name__}: {ex} :: {tb[-400:]}", i))
             prog["steps"][-1] = strip(st)
             res["cells"].append(cell)
             i += 1
+    except ProgramTimeout:
+        raise
     except Exception as ex:
         R.findings.append(Finding("HARNESS", f"setup: {type(ex).__name__}: {ex} :: {traceback.format_exc(limit=4)[-400:]}", -1))
     res["findings"] = [(f.prop, f.msg, f.step) for f in R.findings]
@@ -139,6 +143,8 @@ def _run_fixed(prog):
     R = Runner(_runner_lean)
     try:
         R.run(json.loads(json.dumps(prog)))
+    except ProgramTimeout:
+        raise
     except Exception as ex:
         R.findings.append(Finding("HARNESS", f"{type(ex).__name__}: {ex} :: {traceback.format_exc(limit=4)[-400:]}", -1))
     return {"findings": [(f.prop, f.msg, f.step) for f in R.findings], "known": R.stats.get("known", []), "program": prog, "route_mismatches": R.route_mismatches,
